@@ -63,6 +63,8 @@ class C06Scalar1D(Harness):
                         if tier == "quick" and sk in ("npint",) and op not in ("mul", "div"):
                             continue
                         yield f"s1d-M{M}-{op}-{sk}-h{hk}", dict(M=M, op=op, sk=sk, kind=hk)
+            for op in ("mul", "imul", "div", "idiv"):
+                yield f"s1d-M{M}-{op}-pyint-nokeep", dict(M=M, op=op, sk="pyint", kind="int", toggle_keep=True)
 
     def declare(self, cx, p):
         x = _declare1d(cx, p, p["M"])
@@ -78,6 +80,8 @@ class C06Scalar1D(Harness):
 
     def drive(self, E, p, x):
         h = _mk1d(E, p, x)
+        if p.get("toggle_keep"):
+            h.keep_missed = False     # the recorded under/overflow stay in the histogram; only tracking is switched off
         before = snap1d(E, h)
         c, op = x["c"], p["op"]
 
@@ -125,7 +129,7 @@ class C06Scalar1D(Harness):
         # the operand never changes
         aft = obs["after"]
         yield "operand_unchanged", z3.And([cx.eq(aft["freq"][j], f[j]) for j in range(M)] + [cx.eq(aft["err2"][j], q[j]) for j in range(M)]
-                                          + [cx.eq(aft["under"], u), cx.eq(aft["over"], o), z3.BoolVal(aft["dtype"] == obs["before"]["dtype"])]
+                                          + [cx.eq(aft["missed"][0], u), cx.eq(aft["missed"][1], o), z3.BoolVal(aft["dtype"] == obs["before"]["dtype"])]
                                           + [cx.t(aft["bins"][j][0]) == cx.t(x["e"][j]) for j in range(M)])
         yield "operand_stats_unchanged", z3.And([cx.eq(obs["after_stats"][k], s[i]) for i, k in enumerate(("sum", "sum2", "min", "max", "weight"))])
         if op in ("mul", "rmul", "imul"):
@@ -154,8 +158,11 @@ class C06Scalar1D(Harness):
             yield f"content[{j}]", cx.eq(res["freq"][j], factor * f[j])
             yield f"err2[{j}]", cx.eq(res["err2"][j], factor * factor * q[j])
             yield f"bins[{j}]", z3.And(cx.t(res["bins"][j][0]) == cx.t(x["e"][j]), cx.t(res["bins"][j][1]) == cx.t(x["e"][j + 1]))
-        yield "underflow", cx.eq(res["under"], factor * u)
-        yield "overflow", cx.eq(res["over"], factor * o)
+        if p.get("toggle_keep"):
+            yield "recorded_missed_scaled", z3.And(cx.eq(res["missed"][0], factor * u), cx.eq(res["missed"][1], factor * o))
+        else:
+            yield "underflow", cx.eq(res["under"], factor * u)
+            yield "overflow", cx.eq(res["over"], factor * o)
         yield "dtype_consistent", res["dtype"] == res["fdtype"] == res["edtype"]
         yield "name_kept", obs["name"] == "n"
         if op in ("div", "idiv", "muldiv") or p["sk"] in ("pyfloat", "npfloat") or p["kind"] == "real":
@@ -191,7 +198,9 @@ class C06ScalarND(Harness):
         for shape in ([(2, 2)] if tier == "quick" else [(2, 2), (1, 3), (2, 1, 2)]):
             for op in ("mul", "rmul", "imul", "div", "idiv"):
                 for sk in ("pyint", "pyfloat") if tier == "quick" else ("pyint", "pyfloat", "npfloat", "npint"):
-                    yield f"snd-S{'x'.join(map(str, shape))}-{op}-{sk}", dict(shape=list(shape), op=op, sk=sk)
+                    yield f"snd-S{'x'.join(map(str, shape))}-{op}-{sk}", dict(shape=list(shape), op=op, sk=sk, keep=True)
+                # missed weight recorded, tracking switched off (keep_missed=False): scaling still applies to what is recorded
+                yield f"snd-S{'x'.join(map(str, shape))}-{op}-pyint-nokeep", dict(shape=list(shape), op=op, sk="pyint", keep=False)
 
     def declare(self, cx, p):
         shape = p["shape"]
@@ -207,7 +216,8 @@ class C06ScalarND(Harness):
         shape = p["shape"]
         D = len(shape)
         cls = nd.Histogram2D if D == 2 else nd.HistogramND
-        h = cls([np.asarray(x["e"][k]) for k in range(D)], np.asarray(nested(x["f"], shape), dtype=int), errors2=np.asarray(nested(x["q"], shape), dtype=int), missed=x["m"])
+        h = cls([np.asarray(x["e"][k]) for k in range(D)], np.asarray(nested(x["f"], shape), dtype=int), errors2=np.asarray(nested(x["q"], shape), dtype=int), missed=x["m"],
+                keep_missed=p.get("keep", True))
         c, op = x["c"], p["op"]
 
         def run():
